@@ -1,11 +1,12 @@
 import WR.Base.Sexp
 import WR.C04.Model
 import WR.Gen.C04Tables
+import WR.C04.RefTable
 open WR WR.Sexp WR.C04
 
 namespace Driver.C04
 
-def T : Table := WR.Gen.C04Tables.table
+def T : Table := WR.C04.refTable
 
 /-- values nest only through `comp` / `union`; fuel bounds the nesting depth accepted on the wire -/
 def getValF : Nat → Sexp → Option Val
